@@ -12,6 +12,10 @@ import (
 type Found struct {
 	V Violation
 	H *History
+	// Native: executing the identical history (same world, ops, plans) again did not give
+	// the same verdict or message: the difference comes from a source outside the seams (the
+	// loader's goroutines, the go command). Such a finding replays by repetition only.
+	Native bool
 }
 
 // RunCases executes cases on the worker pool; cases are identified by index so the set of
@@ -125,17 +129,42 @@ func (c *Ctx) Shrink(f Found, judge Judge, budget time.Duration) (Found, []strin
 	var log []string
 	cur := cloneHistory(f.H)
 	curV := f.V
+	// 0. stability: is the verdict a function of the recorded history at all?
+	native := false
+	{
+		fails, msgs := 0, map[string]bool{f.V.Msg: true}
+		const reps = 4
+		for i := 0; i < reps; i++ {
+			ok, v := c.Fails(cloneHistory(cur), judge, f.V.Class)
+			if ok {
+				fails++
+				msgs[v.Msg] = true
+			}
+		}
+		if fails < reps || len(msgs) > 1 {
+			native = true
+			c.Stats.Add("native_nondeterminism_findings", 1)
+			log = append(log, fmt.Sprintf("the identical history failed in %d of %d further executions with %d distinct messages: nondeterminism outside the seams; replay is by repetition, every shrink step is retried", fails, reps, len(msgs)))
+		}
+	}
 	try := func(cand *History, what string) bool {
-		if time.Now().After(deadline) {
-			return false
+		tries := 1
+		if native {
+			tries = 4
 		}
-		ok, v := c.Fails(cand, judge, f.V.Class)
-		if ok {
-			cur = cand
-			curV = *v
-			log = append(log, what)
+		for t := 0; t < tries; t++ {
+			if time.Now().After(deadline) {
+				return false
+			}
+			ok, v := c.Fails(cand, judge, f.V.Class)
+			if ok {
+				cur = cand
+				curV = *v
+				log = append(log, what)
+				return true
+			}
 		}
-		return ok
+		return false
 	}
 	// 1. drop ops (never the last gen)
 	for changed := true; changed; {
@@ -276,7 +305,7 @@ func (c *Ctx) Shrink(f Found, judge Judge, budget time.Duration) (Found, []strin
 			try(cand, "drop package "+d)
 		}
 	}
-	return Found{V: curV, H: cur}, log
+	return Found{V: curV, H: cur, Native: native}, log
 }
 
 func lastSlash(s string) int {
